@@ -46,8 +46,10 @@ pub enum DiffType {
 
 #[derive(Clone, Debug, PartialEq, Eq)]
 pub enum MergeParents {
-    Number(usize),  // Number of parent commits == (number of @s in hunk header) - 1
-    Prefix(String), // Hunk line prefix, length == number of parent commits
+    Number(usize), // Number of parent commits == (number of @s in hunk header) - 1
+    // Hunk line prefix, and the number of parent commits. (The prefix is shorter than that
+    // number for a line whose trailing blanks were stripped, e.g. an empty context line.)
+    Prefix(String, usize),
     Unknown,
 }
 
@@ -62,7 +64,7 @@ impl DiffType {
         use DiffType::*;
         use MergeParents::*;
         match self {
-            Combined(Prefix(prefix), _) => prefix.len(),
+            Combined(Prefix(_, n_parents), _) => *n_parents,
             Combined(Number(n_parents), _) => *n_parents,
             Unified => 1,
             Combined(Unknown, _) => delta_unreachable("Number of merge parents must be known."),
